@@ -30,12 +30,6 @@ def withLimbs (bits : Nat) (l : List Nat) (k : List Nat → ToRes) : ToRes :=
   | some r => k r
   | none => .panic
 
-/-- `[0; LIMBS]` with `limbs[0] = x` (for `LIMBS ≥ 1`) -/
-def low1 (n x : Nat) : List Nat :=
-  match n with
-  | 0 => []
-  | n + 1 => x :: List.replicate n 0
-
 /-- `impl TryFrom<u64> for Uint` -/
 def tryFromU64 (bits value : Nat) : ToRes :=
   let n := nlimbs bits
